@@ -910,3 +910,6 @@ m('C18', 'run: optional gridding_opts indexed (defect F19)', RUN,
 m('C18', 'parser: unknown sections accepted (defect F20)', PARSER,
   "    if unknown:\n        raise TypeError(f\"Unexpected section in config file: {unknown}.\")\n", "",
   'C18.Q5.unknown')
+m('C08', 'jvec: source field with the absolute frequency (defect F21)', SIMS,
+  "                frequency=efield._frequency", "                frequency=efield.frequency",
+  'C08.V3.source')
